@@ -164,7 +164,11 @@ def main():
 
     # ---- global census: every construction site and every Track call must be one we understand
     n_new, n_track = 0, 0
-    for p in glob.glob(os.path.join(repo, "**", "*.go"), recursive=True):
+    gofiles = []
+    for root, dirs, files in os.walk(repo):
+        dirs[:] = [d for d in dirs if not d.startswith(".") and d not in ("node_modules", "vendor", "testdata", "docs")]
+        gofiles += [os.path.join(root, f) for f in files if f.endswith(".go")]
+    for p in sorted(gofiles):
         rel = os.path.relpath(p, repo)
         if p.endswith("_test.go") or rel.startswith("internal/cluster/security/") or "/testdata/" in rel:
             continue
